@@ -145,11 +145,19 @@ def run_path(world, it, ref, contract):
             for d in contract.raises:
                 dcls = world.resolve_class(d)
                 if issubclass(exc.cls, dcls):
+                    # an exception raised by a built-in operation of the library code itself
+                    # (IndexError, KeyError, ...) is not covered by a blanket `Exception`, which is
+                    # meant for what user callbacks raise
+                    if exc.okind.startswith("SAFE") and dcls in (Exception, BaseException):
+                        continue
                     declared = d
                     break
             if declared is None:
-                it.oblige(exc.okind if exc.okind != "RAISES" else "RAISES",
-                          f"{exc.cls.__name__} from `{exc.origin}`", False, exc.lineno)
+                text = f"{exc.cls.__name__} from `{exc.origin}`"
+                if any(wv in text for wv in contract.waive):
+                    it.assumptions.add(f"WAIVED (left unverified): {exc.okind} {text}")
+                    return
+                it.oblige(exc.okind if exc.okind != "RAISES" else "RAISES", text, False, exc.lineno)
             else:
                 key = ("RAISES", f"raises only {sorted(contract.raises)}")
                 it.note_safe(*key, fnode.lineno)
